@@ -17,7 +17,7 @@
 #include "kalign/kalign.h"
 #include "msa_struct.h"
 
-#if defined(__SANITIZE_ADDRESS__)
+#if defined(__SANITIZE_ADDRESS__) || defined(SIM_ASAN_BUILD)
 #include <sanitizer/common_interface_defs.h>
 #include <sanitizer/lsan_interface.h>
 #define SIM_ASAN 1
@@ -253,8 +253,11 @@ static void exec_op(int idx, OpLine *o)
         leave();
         fprintf(g_out, "r %d A rc=%d alen=%d\n", idx, rc, alen);
         if (rc == 0 && aligned) {
-            for (int i = 0; i < n; i++) { fprintf(g_out, "o %d row%d ", idx, i); emit_hex(g_out, aligned[i], strlen(aligned[i])); fputc('\n', g_out); }
-            for (int i = 0; i < n; i++) free(aligned[i]);
+            /* kalign() returns one row per non-empty input sequence; the caller knows how many that is */
+            int nout = 0;
+            for (int i = 0; i < n; i++) if (lens[i] > 0) nout++;
+            for (int i = 0; i < nout; i++) { fprintf(g_out, "o %d row%d ", idx, i); emit_hex(g_out, aligned[i], strlen(aligned[i])); fputc('\n', g_out); }
+            for (int i = 0; i < nout; i++) free(aligned[i]);
             free(aligned);
         }
         for (int i = 0; i < n; i++) sim_xfree(seqs[i]);
